@@ -4,28 +4,34 @@ SRC = dict(includes=['.'])
 QUICK_W = [0, 1, 2, 3, 5, 7, 8, 9, 13, 16, 17, 24, 31, 32]
 
 JOBS = []
+RT = dict(kind='direct', harness='replay/direct/bitpack_roundtrip.c', sources=['src/core/bitpack.c'],
+          vars=dict([('width', 'width')] + [('in%d' % i, 'in%d' % i) for i in range(8)]))
+RP_U = dict(kind='direct', harness='replay/direct/bitpack_unpack32.c', sources=['src/core/bitpack.c'],
+            vars={'count': 'count', 'bit_width': 'bit_width'})
+RP_P = dict(kind='direct', harness='replay/direct/bitpack_pack32.c', sources=['src/core/bitpack.c'],
+            vars={'count': 'count', 'bit_width': 'bit_width'})
 
 # ---- C11: 8-value group inverse, one job per width, loops unwound completely (constant width) ----
 for w in range(0, 33):
     JOBS.append(dict(
         name='c11_pack8_roundtrip_w%02d' % w, prop='C11', harness='harness/C11/bitpack.c', entry='h_pack8_roundtrip',
         defines=['CQV_W=%d' % w, 'CQV_MEMSET_EXACT=32'], unwind=34, loop_contracts=False,
-        functions=['carquet_bitpack8_32', 'carquet_bitunpack8_32'] +
+        replayer=RT, functions=['carquet_bitpack8_32', 'carquet_bitunpack8_32'] +
                   (['carquet_bitunpack8_%dbit' % w, 'carquet_get_bitunpack8_fn'] if 1 <= w <= 8 else ['carquet_get_bitunpack8_fn']),
-        tier='quick' if w in QUICK_W else 'thorough', wip=True, est_s=5, **SRC))
+        tier='quick' if w in QUICK_W else 'thorough', wip=False, est_s=5, **SRC))
 
 # ---- C12: spec layout (LSB first), encoder and decoder direction, one job per width ---------------
 for w in range(1, 33):
     JOBS.append(dict(
         name='c12_pack8_layout_w%02d' % w, prop='C12', harness='harness/C12/bitpack.c', entry='h_pack8_layout',
         defines=['CQV_W=%d' % w, 'CQV_MEMSET_EXACT=32'], unwind=34, loop_contracts=False,
-        functions=['carquet_bitpack8_32'],
-        tier='quick' if w in QUICK_W else 'thorough', wip=True, est_s=5, **SRC))
+        replayer=RT, functions=['carquet_bitpack8_32'],
+        tier='quick' if w in QUICK_W else 'thorough', wip=False, est_s=5, **SRC))
     JOBS.append(dict(
         name='c12_unpack8_layout_w%02d' % w, prop='C12', harness='harness/C12/bitpack.c', entry='h_unpack8_layout',
         defines=['CQV_W=%d' % w, 'CQV_MEMSET_EXACT=32'], unwind=34, loop_contracts=False,
         functions=['carquet_bitunpack8_32'] + (['carquet_bitunpack8_%dbit' % w] if w <= 8 else []),
-        tier='quick' if w in QUICK_W else 'thorough', wip=True, est_s=5, **SRC))
+        tier='quick' if w in QUICK_W else 'thorough', wip=False, est_s=5, **SRC))
 
 # ---- group loops and 8-group callee contracts (contracts/bitpack.ovl) -------------------------------
 G = dict(overlays=OVL, harness='harness/C08/bitpack.c', **SRC)
@@ -37,17 +43,20 @@ JOBS += [
          defines=['CQV_U8_LO=%d' % lo, 'CQV_U8_HI=%d' % hi],
          unwindset=['carquet_bitunpack8_32.0:%d' % (hi // 8 + 3), 'carquet_bitunpack8_32.1:9'], loop_contracts=False,
          functions=['carquet_bitunpack8_32'] + ['carquet_bitunpack8_%dbit' % w for w in range(1, 9)],
-         wip=True, est_s=60, **G)
+         wip=(hi > 63), tier='thorough' if hi > 63 else 'quick', timeout=900 if hi > 63 else 600,
+         note=('FINDING F1: widths >= 64 (width byte is unvalidated input) -> `1ULL << bit_width` and `extracted << bits_in_buffer` '
+               'shift by >= 64 (UB); native: /tmp/bitpack/demo_width64.c via carquet_rle_decode_all') if hi > 63 else '',
+         est_s=300 if hi > 63 else 40, **G)
     for lo, hi in [(0, 32), (33, 63), (64, 255)]
 ] + [
     dict(name='c08_unpack8_safe_w0_32', prop='C08', entry='h_unpack8_safe_0_32', unwind=9, loop_contracts=False,
          functions=['carquet_bitunpack8_32'] + ['carquet_bitunpack8_%dbit' % w for w in range(1, 9)],
-         wip=True, est_s=30, **G),
+         wip=False, est_s=30, **G),
 ] + [
     dict(name='c11_bitpack8_32_contract_w%d_%d' % (lo, hi), props=['C11', 'C08'], entry='h_bitpack8_32', enforce='carquet_bitpack8_32',
          defines=['CQV_P8_LO=%d' % lo, 'CQV_P8_HI=%d' % hi],
          unwindset=['carquet_bitpack8_32.0:9', 'carquet_bitpack8_32.1:5', 'carquet_bitpack8_32.2:9'], loop_contracts=False,
-         wip=True, est_s=60, **G)
+         wip=False, tier='quick' if hi <= 16 else 'thorough', est_s=150, **G)
     for lo, hi in [(0, 8), (9, 16), (17, 24), (25, 32)]
 ] + [
 ]
@@ -75,9 +84,40 @@ def mulw(w):
 
 for w in range(0, 33):
     d = ['CQV_BW_LO=%d' % w, 'CQV_BW_HI=%d' % w, 'CQV_MULW(x)=' + mulw(w)]
-    JOBS.append(dict(name='c08_bitunpack_32_w%02d' % w, props=['C08', 'C11'], entry='h_bitunpack_32', enforce='carquet_bitunpack_32',
-                     replace=['carquet_bitunpack8_32', 'carquet_bitpack8_32'], min_loop_obligations=2, defines=d, timeout=240,
-                     tier='quick' if w in (0, 3, 8, 13, 32) else 'thorough', wip=True, est_s=60, **G))
-    JOBS.append(dict(name='c11_bitpack_32_w%02d' % w, props=['C11', 'C08'], entry='h_bitpack_32', enforce='carquet_bitpack_32',
-                     replace=['carquet_bitunpack8_32', 'carquet_bitpack8_32'], min_loop_obligations=2, defines=d, timeout=240,
-                     tier='quick' if w in (0, 3, 8, 13, 32) else 'thorough', wip=True, est_s=60, **G))
+    JOBS.append(dict(name='c08_bitunpack_32_w%02d' % w, props=['C08', 'C11'], entry='h_bitunpack_32', enforce='carquet_bitunpack_32', replayer=RP_U,
+                     replace=['carquet_bitunpack8_32', 'carquet_bitpack8_32'], min_loop_obligations=2, defines=d, timeout=240, backend=['sat', 'cadical'],
+                     tier='quick' if w in (0, 3, 8, 32) else 'thorough', wip=True, note='FINDING F2: partial final group reads a full bit_width bytes (needs only ceil(rem*w/8)); CE count=1: heap over-read, replay/direct/bitpack_unpack32.c; ok on the proposed fix (/tmp/bitpack/proposed_fix_bitpack32.diff) for w in 0,3,8,32; w=0 is ok on the real tree', est_s=60, **G))
+    JOBS.append(dict(name='c11_bitpack_32_w%02d' % w, props=['C11', 'C08'], entry='h_bitpack_32', enforce='carquet_bitpack_32', replayer=RP_P,
+                     replace=['carquet_bitunpack8_32', 'carquet_bitpack8_32'], min_loop_obligations=2, defines=d, timeout=240, backend=['sat', 'cadical'],
+                     tier='quick' if w in (0, 3, 8, 32) else 'thorough', wip=True, note='FINDING F2b: partial final group writes a full bit_width bytes but reports ceil(rem*w/8); CE count=1: heap over-write, replay/direct/bitpack_pack32.c; ok on the proposed fix for w in 0,3,8,32; w=0 is ok on the real tree', est_s=60, **G))
+
+# ---- C11/C12: varint (ULEB128) and zigzag in endian.h; bit writer -> bit reader ---------------------
+V = dict(harness='harness/C11/bitpack.c', loop_contracts=False, **SRC)
+JOBS += [
+    dict(name='c11_varint32', props=['C11', 'C12'], entry='h_varint32', unwind=12,
+         functions=['carquet_encode_varint32', 'carquet_decode_varint32'], wip=False, **V),
+    dict(name='c11_varint64', props=['C11', 'C12'], entry='h_varint64', unwind=12,
+         functions=['carquet_encode_varint64', 'carquet_decode_varint64'], wip=False, **V),
+    dict(name='c08_varint_decode_any', props=['C08'], entry='h_varint_decode_any', unwind=12,
+         functions=['carquet_decode_varint32', 'carquet_decode_varint64'], wip=False, **V),
+    dict(name='c11_zigzag', props=['C11', 'C12'], entry='h_zigzag', backend=['z3', 'sat'],
+         functions=['carquet_zigzag_encode32', 'carquet_zigzag_decode32', 'carquet_zigzag_encode64', 'carquet_zigzag_decode64'],
+         wip=False, **V),
+    dict(name='c11_bitrw32', prop='C11', entry='h_bitrw', unwind=14,
+         replayer=dict(kind='direct', harness='replay/direct/bitpack_bitrw.c', sources=['src/core/bitpack.c'],
+                       vars=dict((x, x) for x in ['pa', 'pb', 'v', 'na', 'nb', 'k'])),
+         functions=['carquet_bit_writer_init', 'carquet_bit_writer_write_bits', 'carquet_bit_writer_flush', 'flush_buffer',
+                    'carquet_bit_writer_bytes_written', 'carquet_bit_reader_init', 'carquet_bit_reader_read_bits', 'refill_buffer'],
+         wip=True, note='FINDING F3: the writer flushes only at >= 56 buffered bits, so a write of k bits with 64-k < buffered <= 55 shifts value bits out of the 64-bit buffer (CE 29+12 bits buffered, k=24); write_bits64 of > 32 bits loses bits whenever the buffer is not empty; replay/direct/bitpack_bitrw.c, /tmp/bitpack/demo_bitrw64.c', est_s=60, **V),
+    # same harness with the second prefix write disabled: at most 32 bits buffered before the write under test
+    dict(name='c11_bitrw32_le32_buffered', prop='C11', entry='h_bitrw', unwind=14, defines=['CQV_RW_NB_MAX=0'], level='bounded',
+         bound='at most 32 bits buffered in the writer before the k-bit write (k <= 32); all values, all alignments 0..32',
+         functions=['carquet_bit_writer_write_bits', 'carquet_bit_writer_flush', 'flush_buffer', 'carquet_bit_reader_read_bits', 'refill_buffer'],
+         wip=False, est_s=20, **V),
+    dict(name='c08_bitreader_any', prop='C08', entry='h_bitreader_any', unwind=10,
+         functions=['carquet_bit_reader_init', 'carquet_bit_reader_read_bits', 'carquet_bit_reader_read_bit', 'refill_buffer'],
+         wip=False, est_s=30, **V),
+    dict(name='c11_bitrw64', prop='C11', entry='h_bitrw64', unwind=14,
+         functions=['carquet_bit_writer_write_bits64', 'carquet_bit_reader_read_bits64'],
+         wip=True, note='FINDING F3: the writer flushes only at >= 56 buffered bits, so a write of k bits with 64-k < buffered <= 55 shifts value bits out of the 64-bit buffer (CE 29+12 bits buffered, k=24); write_bits64 of > 32 bits loses bits whenever the buffer is not empty; replay/direct/bitpack_bitrw.c, /tmp/bitpack/demo_bitrw64.c', est_s=60, **V),
+]
